@@ -82,6 +82,25 @@ assert_eq!(matrix, matrix_4);
 mod value;
 pub use value::{DataType, Element, TypeError, Value, View};
 
+/// Return the number of elements in a tensor with a given shape, or `None` if
+/// the shape is too large to create a tensor with.
+///
+/// Like NumPy, this skips zero-sized dimensions when testing for overflow. The
+/// element count of a shape with such a dimension is zero, but the strides of
+/// the tensor are products of the sizes of the other dimensions.
+#[cfg(any(feature = "npy", feature = "safetensors"))]
+fn checked_element_count(shape: &[usize]) -> Option<usize> {
+    let non_zero_product = shape
+        .iter()
+        .filter(|&&dim| dim != 0)
+        .try_fold(1usize, |acc, &dim| acc.checked_mul(dim))?;
+    Some(if shape.contains(&0) {
+        0
+    } else {
+        non_zero_product
+    })
+}
+
 /// Read and write tensors in NumPy's `.npy` format.
 #[cfg(feature = "npy")]
 pub mod npy;
